@@ -15,6 +15,8 @@ E2: bounded exhaustive input enumeration, five families.
   * ropts  : written files x every read option (model incl. out of range, altloc, extra_fields
              subsets, use_author_fields, include_bonds).
   * nonuniq: residues that are not uniquely identifiable: InvalidFileError or the exact bonds.
+  * big    : chains of 1250-66000 hetero residues whose (struct_conn rows x atoms) product lies on both
+             sides of the reader's 4 000 000 switch between dense and dictionary partner matching.
 Every written file with bonds is also inspected row by row (struct_conn / chem_comp_bond rows must be
 true statements about the input in mmCIF dictionary terms), see written_rows_check().
 """
@@ -1840,6 +1842,131 @@ def nonuniq_cases():
 
 
 
+# ---- 'big': both sides of every size switch of the reader / writer -----------------------------
+# convert.py _find_matches(): (covalent struct_conn rows) x (atoms of the model) <= 4 000 000 -> dense
+# comparison matrix, above -> dictionary lookup.  Other count-dependent branches (one-row categories
+# written as key-value pairs, single-model flattening, columns of length 1 in compress()) are reached
+# by the small families; integer widths of the BinaryCIF encodings (255 / 65 535) are crossed by the
+# ids of these structures.
+MATCH_SWITCH = 4000000
+BIG_TYPES = [1, 2, 3, 4, 8]  # what struct_conn can express
+
+
+def big_spec(case):
+    """case = {"fam": "big", "layout": "single"|"double", "n_res": N, "q": inter-residue bonds,
+    "models": m, "dup": 0/1}.  A chain of N hetero residues (one or two atoms each) in two chains;
+    the first q pairs of a fixed candidate order are bonded: (first atom, last atom), then every
+    residue to the next, to the second next, ..., types cycling through BIG_TYPES."""
+    per = 1 if case["layout"] == "single" else 2
+    n_res = case["n_res"]
+    n = per * n_res
+    atoms, coord = [], []
+    for r in range(n_res):
+        chain = "A" if r < n_res // 2 else "B"
+        for k in range(per):
+            atoms.append([chain, r - 5, "", "LIG", 1, "C%d" % (k + 1), "C"])
+            a = len(coord)
+            coord.append([0.5 * a, -0.25 * a, float(a % 7)])
+    if case.get("dup"):
+        # residue 1000 repeats the identifiers of residue 5 (not adjacent): not uniquely identifiable
+        for k in range(per):
+            atoms[per * 1000 + k][0] = atoms[per * 5 + k][0]
+            atoms[per * 1000 + k][1] = atoms[per * 5 + k][1]
+    bonds = []
+    if per == 2:
+        bonds += [[2 * r, 2 * r + 1, 1] for r in range(n_res)]
+    cand = [(0, n - 1)]
+    for d in range(1, 6):
+        for r in range(n_res - d):
+            if per == 1:
+                cand.append((r, r + d))
+            else:
+                cand.append((2 * r + 1, 2 * (r + d)))
+                cand.append((2 * r, 2 * (r + d)))
+    seen = set()
+    q = 0
+    for i, j in cand:
+        if q == case["q"]:
+            break
+        if (i, j) in seen:
+            continue
+        seen.add((i, j))
+        bonds.append([i, j, BIG_TYPES[q % len(BIG_TYPES)]])
+        q += 1
+    if q != case["q"]:
+        raise ValueError("big: not enough candidate pairs for %r" % (case,))
+    m = case.get("models", 1)
+    cs = [coord] + [[[x + 16.0 * k for x in at] for at in coord] for k in range(1, m)]
+    return {"atoms": atoms, "coord": cs, "stack": m > 1, "box": None, "opt": {"atom_id": list(range(n, 0, -1))},
+            "extra": None, "bonds": bonds}
+
+
+def big_case(ctx, case):
+    if not ctx.journal(json.dumps(case)):
+        return
+    spec = big_spec(case)
+    n = len(spec["atoms"])
+    path = "dense" if case["q"] * n <= MATCH_SWITCH else "dict"
+    fmts = FORMATS if case.get("cbcif") else FORMATS[:2]
+    merged = eval_spec(spec, fmts=fmts)
+    ctx.ev(1, 1)
+    ctx.count("big_" + path)
+    ctx.sample({**case, "atoms": n, "product": case["q"] * n, "path": path}) if len(ctx.samples) < 1 else None
+
+    def short(x):
+        if isinstance(x, dict) and "all" in x:
+            x = {k: v for k, v in x.items() if k != "all"}
+            return x
+        t = json.dumps(x, default=str)
+        return x if len(t) < 600 else t[:600] + "..."
+
+    if case.get("dup"):
+        # not uniquely identifiable: InvalidFileError or the exact structure
+        ctx.count("unspecified")
+        merged.pop("get_structure_raises_InvalidFileError", None)
+    else:
+        ctx.count("accepted")
+    ctx.outcome(("big", json.dumps(case), outcome_key(merged)))
+    cls = "match_path=%s,layout=%s,%s%s" % (path, case["layout"], "stack" if case.get("models", 1) > 1 else "array",
+                                          ",repeated_residue_ids" if case.get("dup") else "")
+    for kind, ent in merged.items():
+        if kind.startswith("_"):
+            continue
+        ctx.violation("roundtrip_big|%s|%s|%s" % (fmt_label(ent["fmts"], fmts), kind, cls),
+                      "large structure (%d atoms, %d struct_conn rows, %s matching): %s" % (n, case["q"], path, kind),
+                      case, short(ent["exp"]), short(ent["obs"]))
+
+
+def big_cases(tier):
+    base = {"fam": "big", "models": 1, "dup": 0}
+    out = [
+        {**base, "layout": "single", "n_res": 2000, "q": 1999},             # 3 998 000 dense
+        {**base, "layout": "single", "n_res": 2000, "q": 2000, "cbcif": 1},  # 4 000 000 dense (boundary)
+        {**base, "layout": "single", "n_res": 2000, "q": 2001, "cbcif": 1},  # 4 002 000 dict
+        {**base, "layout": "single", "n_res": 2001, "q": 1999},             # 3 999 999 dense
+        {**base, "layout": "single", "n_res": 2001, "q": 2000},             # 4 002 000 dict
+        {**base, "layout": "single", "n_res": 2000, "q": 2001, "models": 2},  # dict, 2-model stack
+        {**base, "layout": "single", "n_res": 2000, "q": 2000, "models": 2},  # dense, 2-model stack
+        {**base, "layout": "double", "n_res": 1001, "q": 1998},             # 3 999 996 dense
+        {**base, "layout": "double", "n_res": 1001, "q": 1999},             # 4 001 998 dict
+        {**base, "layout": "single", "n_res": 2000, "q": 2001, "dup": 1},   # dict, ambiguous partner
+        {**base, "layout": "single", "n_res": 2000, "q": 2000, "dup": 1},   # dense, ambiguous partner
+    ]
+    if tier == "thorough":
+        for c in out:
+            c["cbcif"] = 1
+        out += [
+            {**base, "layout": "single", "n_res": 4000, "q": 1000, "cbcif": 1},   # 4 000 000 dense
+            {**base, "layout": "single", "n_res": 4000, "q": 1001, "cbcif": 1},   # dict
+            {**base, "layout": "single", "n_res": 1250, "q": 3200, "cbcif": 1},   # 4 000 000 dense, q > n
+            {**base, "layout": "single", "n_res": 1250, "q": 3201, "cbcif": 1},   # dict, q > n
+            {**base, "layout": "double", "n_res": 1001, "q": 1999, "models": 2, "cbcif": 1},
+            {**base, "layout": "single", "n_res": 66000, "q": 60, "cbcif": 1},    # ids beyond 65 535; 3 960 000 dense
+            {**base, "layout": "single", "n_res": 66000, "q": 61, "cbcif": 1},    # 4 026 000 dict
+        ]
+    return out
+
+
 # ---------------------------------------------------------------------------
 # shards / dispatch
 # ---------------------------------------------------------------------------
@@ -1892,6 +2019,8 @@ def shards(tier, seed):
         if tier == "thorough":
             out.append({"fam": "ropts", "variant": v, "pal": (pal_i + 1) % len(PALETTES), "w": 9000})
     out.append({"fam": "nonuniq", "w": 500})
+    for k, c in enumerate(big_cases(tier)):
+        out.append({"fam": "big", "index": k, "w": 40000 if c["n_res"] < 10000 else 200000})
     out.sort(key=lambda s: -s.get("w", 0))
     return out
 
@@ -1921,6 +2050,8 @@ def run_shard(shard, ctx):
     elif fam == "nonuniq":
         for case in nonuniq_cases():
             nonuniq_case(ctx, case)
+    elif fam == "big":
+        big_case(ctx, big_cases(ctx.tier)[shard["index"]])
     else:
         raise ValueError(shard)
 
@@ -1944,6 +2075,8 @@ def replay(case, ctx):
         ropts_case(ctx, case)
     elif fam == "nonuniq":
         nonuniq_case(ctx, case)
+    elif fam == "big":
+        big_case(ctx, case)
     else:
         raise ValueError(case)
 
@@ -1982,6 +2115,9 @@ def bounds(tier):
         "ropts": {"files": len(ROPT_VARIANTS), "models": "None, 1..m, -m..-1, 0, m+1, -(m+1), -(m+2)",
                   "altloc": 3, "use_author_fields": 2, "include_bonds": 2, "extra_fields": "every subset of 5 (4)"},
         "nonuniq": {"cases": sum(1 for _ in nonuniq_cases())},
+        "big": {"cases": len(big_cases(tier)), "atoms": "2000-2002" + (", 1250, 4000, 66000" if tier == "thorough" else ""),
+                "struct_conn_rows_x_atoms": "both sides of 4 000 000 (3 998 000 ... 4 002 000)",
+                "compressed_encoding": "2 cases" if tier == "quick" else "all"},
     }
 
 
@@ -1998,7 +2134,9 @@ RULE = (
     "classified by the position of the bond in the input (intra / standard polymer link / other inter-residue) and "
     "the way it differs. sel / indep: case = one model-written table (text and BinaryCIF) x one option set; every "
     "call counts; the oracle is a per-residue recomputation from the get_structure documentation. ropts: one call "
-    "per (written file, option set). Distinct outcomes = distinct (case, result) pairs resp. distinct decoded "
+    "per (written file, option set). big: case = (chain of N one- or two-atom residues, number q of inter-residue "
+    "bonds incl. first-atom/last-atom bonds, array or 2-model stack), q x atoms chosen on both sides of "
+    "FIND_MATCHES_SWITCH_THRESHOLD; complete comparison as in annot. Distinct outcomes = distinct (case, result) pairs resp. distinct decoded "
     "structures."
 )
 ASSUMPTIONS = [
